@@ -585,4 +585,321 @@ theorem bParse_complete :
     BPoly.parse ⟨primeOps 5, ⟨.lex, true⟩, ("X", "Y"), none⟩ "?" = .error .parsing :=
   ⟨direct_bivariate_polynomialStringToMap, by decide +kernel⟩
 
+/-! ### QuoRem / Rem -/
+
+theorem closed_univariate_QuoRem : kindsOf Gen.errClosed "univariate.Polynomial.QuoRem" =
+    ["InputValue", "InputIncompatible", "ArithmeticIncompat", "Overflow"] := by decide +kernel
+theorem direct_univariate_QuoRem :
+    kindsOf Gen.errDirect "univariate.Polynomial.QuoRem" = ["InputValue"] := by decide +kernel
+
+theorem uQuoRem_err {α : Type} {F : FOps α} {fuel : Nat} {f : UPoly α} {gs : List (UPoly α)} {k : Kind}
+    (h : UPoly.quoRem F fuel f gs = .error k) : k = .inputValue := by
+  unfold UPoly.quoRem at h
+  split at h <;> cases h; rfl
+
+theorem uQuoRem_sound {α : Type} (F : FOps α) (fuel : Nat) (f : UPoly α) (gs : List (UPoly α)) (k : Kind)
+    (h : UPoly.quoRem F fuel f gs = .error k) :
+    k.name ∈ kindsOf Gen.errClosed "univariate.Polynomial.QuoRem" := by
+  rw [closed_univariate_QuoRem, uQuoRem_err h]; kind_mem
+
+/-- a zero divisor among the divisors -/
+theorem uQuoRem_complete : kindsOf Gen.errDirect "univariate.Polynomial.QuoRem" = ["InputValue"] ∧
+    UPoly.quoRem (primeOps 5) 10 [1, 2, 0, 1, 3] [[1, 0, 2], [0]] = .error .inputValue :=
+  ⟨direct_univariate_QuoRem, by decide +kernel⟩
+
+theorem closed_bivariate_QuoRem : kindsOf Gen.errClosed "bivariate.Polynomial.QuoRem" =
+    ["InputValue", "InputIncompatible", "ArithmeticIncompat", "Overflow"] := by decide +kernel
+theorem closed_bivariate_quoRemWithIgnore : kindsOf Gen.errClosed "bivariate.Polynomial.quoRemWithIgnore" =
+    ["InputValue", "InputIncompatible", "ArithmeticIncompat", "Overflow"] := by decide +kernel
+theorem direct_bivariate_quoRemWithIgnore :
+    kindsOf Gen.errDirect "bivariate.Polynomial.quoRemWithIgnore" = ["InputValue"] := by decide +kernel
+theorem closed_bivariate_Rem : kindsOf Gen.errClosed "bivariate.Polynomial.Rem" =
+    ["InputValue", "InputIncompatible", "ArithmeticIncompat", "Overflow"] := by decide +kernel
+theorem direct_bivariate_Rem :
+    kindsOf Gen.errDirect "bivariate.Polynomial.Rem" = ["InputValue"] := by decide +kernel
+
+theorem bQuoRem_err {α : Type} {F : FOps α} {o : Order} {fuel : Nat} {ig : Option Nat} {f : BPoly α}
+    {gs : List (BPoly α)} {k : Kind} (h : BPoly.quoRem F o fuel ig f gs = .error k) : k = .inputValue := by
+  unfold BPoly.quoRem at h
+  split at h <;> cases h; rfl
+
+theorem bRem_err {α : Type} {F : FOps α} {o : Order} {fuel : Nat} {f : BPoly α}
+    {gs : List (BPoly α)} {k : Kind} (h : BPoly.rem F o fuel f gs = .error k) : k = .inputValue := by
+  unfold BPoly.rem at h
+  split at h
+  · next k' hk => cases h; exact bQuoRem_err hk
+  · cases h
+
+theorem bQuoRem_sound {α : Type} (F : FOps α) (o : Order) (fuel : Nat) (ig : Option Nat) (f : BPoly α)
+    (gs : List (BPoly α)) (k : Kind) (h : BPoly.quoRem F o fuel ig f gs = .error k) :
+    k.name ∈ kindsOf Gen.errClosed "bivariate.Polynomial.quoRemWithIgnore" ∧
+    k.name ∈ kindsOf Gen.errClosed "bivariate.Polynomial.QuoRem" := by
+  rw [closed_bivariate_QuoRem, closed_bivariate_quoRemWithIgnore, bQuoRem_err h]
+  exact ⟨by kind_mem, by kind_mem⟩
+
+theorem bRem_sound {α : Type} (F : FOps α) (o : Order) (fuel : Nat) (f : BPoly α)
+    (gs : List (BPoly α)) (k : Kind) (h : BPoly.rem F o fuel f gs = .error k) :
+    k.name ∈ kindsOf Gen.errClosed "bivariate.Polynomial.Rem" := by
+  rw [closed_bivariate_Rem, bRem_err h]; kind_mem
+
+theorem bQuoRem_complete :
+    kindsOf Gen.errDirect "bivariate.Polynomial.quoRemWithIgnore" = ["InputValue"] ∧
+    kindsOf Gen.errDirect "bivariate.Polynomial.Rem" = ["InputValue"] ∧
+    BPoly.quoRem (primeOps 5) ⟨.lex, true⟩ 20 none [((2, 1), 1), ((0, 2), 1)]
+      [[((1, 1), 1), ((0, 0), 4)], []] = .error .inputValue ∧
+    BPoly.rem (primeOps 5) ⟨.lex, true⟩ 20 [((2, 1), 1), ((0, 2), 1)] [[]] = .error .inputValue :=
+  ⟨direct_bivariate_quoRemWithIgnore, direct_bivariate_Rem, rfl, rfl⟩
+
+/-! ### bivariate.addDegs (through multNoReduce / Times / Mult) -/
+
+theorem closed_bivariate_addDegs : kindsOf Gen.errClosed "bivariate.addDegs" = ["Overflow"] := by
+  decide +kernel
+theorem direct_bivariate_addDegs : kindsOf Gen.errDirect "bivariate.addDegs" = ["Overflow"] := by
+  decide +kernel
+theorem closed_bivariate_multNoReduce : kindsOf Gen.errClosed "bivariate.Polynomial.multNoReduce" =
+    ["InputValue", "InputIncompatible", "ArithmeticIncompat", "Overflow"] := by decide +kernel
+theorem closed_bivariate_Mult : kindsOf Gen.errClosed "bivariate.Polynomial.Mult" =
+    ["InputValue", "InputIncompatible", "ArithmeticIncompat", "Overflow"] := by decide +kernel
+
+/-- the model's `addDegs` returns `none` exactly where the code constructs its only error -/
+theorem bTimes_err {α : Type} {R : BPoly.Ring α} {f g : BPoly α} {k : Kind}
+    (h : BPoly.times R f g = .error k) : k = .overflow := by
+  unfold BPoly.times at h
+  split at h <;> cases h; rfl
+
+theorem bTimes_sound {α : Type} (R : BPoly.Ring α) (f g : BPoly α) (k : Kind)
+    (h : BPoly.times R f g = .error k) :
+    k.name ∈ kindsOf Gen.errClosed "bivariate.addDegs" ∧
+    k.name ∈ kindsOf Gen.errClosed "bivariate.Polynomial.multNoReduce" ∧
+    k.name ∈ kindsOf Gen.errClosed "bivariate.Polynomial.Mult" := by
+  rw [closed_bivariate_addDegs, closed_bivariate_multNoReduce, closed_bivariate_Mult, bTimes_err h]
+  exact ⟨by kind_mem, by kind_mem, by kind_mem⟩
+
+theorem addDegs_complete : kindsOf Gen.errDirect "bivariate.addDegs" = ["Overflow"] ∧
+    BPoly.addDegs (2 ^ 63, 0) (2 ^ 63, 0) = none ∧ BPoly.addDegs (0, 2 ^ 64 - 1) (0, 1) = none ∧
+    BPoly.times ⟨primeOps 5, ⟨.lex, true⟩, ("X", "Y"), none⟩ [((2 ^ 63, 0), 1)] [((2 ^ 63, 0), 1)] =
+      .error .overflow :=
+  ⟨direct_bivariate_addDegs, by decide +kernel, by decide +kernel, by decide +kernel⟩
+
+/-! ### MinimizeBasis / ReduceBasis -/
+
+theorem closed_bivariate_MinimizeBasis : kindsOf Gen.errClosed "bivariate.Ideal.MinimizeBasis" =
+    ["InputValue", "InputIncompatible", "ArithmeticIncompat", "Overflow"] := by decide +kernel
+theorem direct_bivariate_MinimizeBasis :
+    kindsOf Gen.errDirect "bivariate.Ideal.MinimizeBasis" = ["InputValue"] := by decide +kernel
+theorem closed_bivariate_ReduceBasis : kindsOf Gen.errClosed "bivariate.Ideal.ReduceBasis" =
+    ["InputValue", "InputIncompatible", "ArithmeticIncompat", "Overflow"] := by decide +kernel
+theorem direct_bivariate_ReduceBasis :
+    kindsOf Gen.errDirect "bivariate.Ideal.ReduceBasis" = ["InputValue"] := by decide +kernel
+
+theorem minimizeBasis_sound {α : Type} (F : FOps α) (o : Order) (id id' : BPoly.Ideal α) (k : Kind)
+    (h : id.minimizeBasis F o = some (id', .error k)) :
+    k.name ∈ kindsOf Gen.errClosed "bivariate.Ideal.MinimizeBasis" := by
+  rw [closed_bivariate_MinimizeBasis, (BPoly.minimizeBasis_error_iff.1 h).2]; kind_mem
+
+theorem reduceBasis_sound {α : Type} (F : FOps α) (o : Order) (id id' : BPoly.Ideal α) (k : Kind)
+    (h : id.reduceBasis F o = some (id', .error k)) :
+    k.name ∈ kindsOf Gen.errClosed "bivariate.Ideal.ReduceBasis" := by
+  rw [closed_bivariate_ReduceBasis, (BPoly.reduceBasis_error_iff.1 h).2]; kind_mem
+
+/-- GF(3), Lex: `{XY + 2, Y² + 2}` is not a Gröbner basis -/
+theorem basis_complete :
+    kindsOf Gen.errDirect "bivariate.Ideal.MinimizeBasis" = ["InputValue"] ∧
+    kindsOf Gen.errDirect "bivariate.Ideal.ReduceBasis" = ["InputValue"] ∧
+    (({ gens := [[((1, 1), 1), ((0, 0), 2)], [((0, 2), 1), ((0, 0), 2)]] } : BPoly.Ideal Nat).minimizeBasis
+      (primeOps 3) ⟨.lex, true⟩).map (·.2) = some (.error .inputValue) ∧
+    (({ gens := [[((1, 1), 1), ((0, 0), 2)], [((0, 2), 1), ((0, 0), 2)]] } : BPoly.Ideal Nat).reduceBasis
+      (primeOps 3) ⟨.lex, true⟩).map (·.2) = some (.error .inputValue) :=
+  ⟨direct_bivariate_MinimizeBasis, direct_bivariate_ReduceBasis, by decide +kernel, by decide +kernel⟩
+
+/-! ### Interpolate -/
+
+theorem closed_univariate_Interpolate : kindsOf Gen.errClosed "univariate.QuotientRing.Interpolate" =
+    ["InputValue", "InputIncompatible", "ArithmeticIncompat", "Overflow"] := by decide +kernel
+theorem direct_univariate_Interpolate :
+    kindsOf Gen.errDirect "univariate.QuotientRing.Interpolate" = ["InputValue"] := by decide +kernel
+theorem closed_bivariate_Interpolate : kindsOf Gen.errClosed "bivariate.QuotientRing.Interpolate" =
+    ["InputValue", "InputIncompatible", "ArithmeticIncompat", "Overflow"] := by decide +kernel
+theorem direct_bivariate_Interpolate :
+    kindsOf Gen.errDirect "bivariate.QuotientRing.Interpolate" = ["InputValue"] := by decide +kernel
+
+theorem uInterp_err {α : Type} {F : FOps α} {ps vs : List α} {k : Kind}
+    (h : UPoly.interpolate F ps vs = .error k) : k = .inputValue := by
+  unfold UPoly.interpolate at h
+  repeat' split at h
+  all_goals first | (cases h; rfl) | cases h
+
+theorem uInterp_sound {α : Type} (F : FOps α) (ps vs : List α) (k : Kind)
+    (h : UPoly.interpolate F ps vs = .error k) :
+    k.name ∈ kindsOf Gen.errClosed "univariate.QuotientRing.Interpolate" := by
+  rw [closed_univariate_Interpolate, uInterp_err h]; kind_mem
+
+/-- both sites: different numbers of points and values; a repeated point -/
+theorem uInterp_complete : kindsOf Gen.errDirect "univariate.QuotientRing.Interpolate" = ["InputValue"] ∧
+    UPoly.interpolate (primeOps 5) [0, 1] [1, 2, 0] = .error .inputValue ∧
+    UPoly.interpolate (primeOps 5) [0, 1, 1] [1, 2, 0] = .error .inputValue :=
+  ⟨direct_univariate_Interpolate, by decide +kernel, by decide +kernel⟩
+
+/-- an error coming out of a left fold satisfies `P` when the start value does and every step
+    either keeps an error or produces one satisfying `P` -/
+theorem foldl_err_inv {β γ : Type} (P : Kind → Prop) (step : Except Kind β → γ → Except Kind β)
+    (hstep : ∀ acc x k, (∀ k', acc = .error k' → P k') → step acc x = .error k → P k) :
+    ∀ (l : List γ) (acc : Except Kind β), (∀ k', acc = .error k' → P k') →
+      ∀ k, l.foldl step acc = .error k → P k
+  | [], _, hacc, k, h => hacc k h
+  | x :: l, acc, hacc, k, h =>
+    foldl_err_inv P step hstep l (step acc x) (fun k' hk' => hstep acc x k' hacc hk') k h
+
+theorem bInterp_err {α : Type} {R : BPoly.Ring α} {ps : List (α × α)} {vs : List α} {k : Kind}
+    (h : BPoly.interpolate R ps vs = .error k) : k = .inputValue ∨ k = .overflow := by
+  unfold BPoly.interpolate at h
+  simp only at h
+  split at h
+  · cases h; exact .inl rfl
+  · split at h
+    · cases h; exact .inl rfl
+    · refine .inr (foldl_err_inv (· = .overflow) _ ?_ _ _ (fun k' hk' => by cases hk') k h)
+      intro _ x k hacc hs
+      obtain ⟨p, v⟩ := x
+      simp only at hs
+      repeat' split at hs
+      all_goals first
+        | (cases hs; done)
+        | (cases hs; exact hacc _ rfl)
+        | (cases hs; exact bTimes_err (by assumption))
+
+theorem bInterp_sound {α : Type} (R : BPoly.Ring α) (ps : List (α × α)) (vs : List α) (k : Kind)
+    (h : BPoly.interpolate R ps vs = .error k) :
+    k.name ∈ kindsOf Gen.errClosed "bivariate.QuotientRing.Interpolate" := by
+  rw [closed_bivariate_Interpolate]
+  rcases bInterp_err h with rfl | rfl <;> kind_mem
+
+theorem bInterp_complete : kindsOf Gen.errDirect "bivariate.QuotientRing.Interpolate" = ["InputValue"] ∧
+    BPoly.interpolate ⟨primeOps 5, ⟨.lex, true⟩, ("X", "Y"), none⟩ [(0, 0), (1, 0)] [1, 2, 3] =
+      .error .inputValue ∧
+    BPoly.interpolate ⟨primeOps 5, ⟨.lex, true⟩, ("X", "Y"), none⟩ [(0, 0), (1, 0), (0, 0)] [1, 2, 3] =
+      .error .inputValue :=
+  ⟨direct_bivariate_Interpolate, by decide +kernel, by decide +kernel⟩
+
+/-! ### tables -/
+
+theorem closed_primefield_ComputeTables :
+    kindsOf Gen.errClosed "primefield.Field.ComputeTables" = ["InputTooLarge"] := by decide +kernel
+theorem closed_primefield_newTable :
+    kindsOf Gen.errClosed "primefield.newTable" = ["InputTooLarge"] := by decide +kernel
+theorem direct_primefield_newTable :
+    kindsOf Gen.errDirect "primefield.newTable" = ["InputTooLarge"] := by decide +kernel
+theorem closed_extfield_newLogTable : kindsOf Gen.errClosed "extfield.newLogTable" =
+    ["InputValue", "InputIncompatible", "InputTooLarge", "ArithmeticIncompat", "Overflow"] := by
+  decide +kernel
+theorem direct_extfield_newLogTable :
+    kindsOf Gen.errDirect "extfield.newLogTable" = ["InputTooLarge"] := by decide +kernel
+
+theorem computeTables_err {p : Nat} {a m : Bool} {mm : Nat} {k : Kind}
+    (h : Prime.computeTables p a m mm = .error k) : k = .inputTooLarge := by
+  unfold Prime.computeTables at h
+  split at h <;> cases h; rfl
+
+theorem computeTables_sound (p : Nat) (a m : Bool) (mm : Nat) (k : Kind)
+    (h : Prime.computeTables p a m mm = .error k) :
+    k.name ∈ kindsOf Gen.errClosed "primefield.Field.ComputeTables" ∧
+    k.name ∈ kindsOf Gen.errClosed "primefield.newTable" := by
+  rw [closed_primefield_ComputeTables, closed_primefield_newTable, computeTables_err h]
+  exact ⟨by kind_mem, by kind_mem⟩
+
+theorem computeTables_complete : kindsOf Gen.errDirect "primefield.newTable" = ["InputTooLarge"] ∧
+    Prime.computeTables 65537 true false 1000 = .error .inputTooLarge :=
+  ⟨direct_primefield_newTable, by decide +kernel⟩
+
+/-- the `.tables` operation of `step` (primefield `ComputeTables`, extfield `ComputeMultTable`):
+    the only error reply is `InputTooLarge` -/
+theorem stepT_tables_sound {α : Type} (desc : FieldDesc) (s : St α) (f : Nat) (a m : Bool)
+    (mm : Option Nat) (r : St α × String) (h : stepT desc s (.tables f a m mm) = some r) :
+    r.2 = "ok" ∨ (r.2 = "err " ++ Kind.inputTooLarge.name ∧
+      Kind.inputTooLarge.name ∈ kindsOf Gen.errClosed "primefield.Field.ComputeTables" ∧
+      Kind.inputTooLarge.name ∈ kindsOf Gen.errClosed "extfield.newLogTable") := by
+  have hname : "err " ++ Kind.inputTooLarge.name = "err InputTooLarge" := by decide +kernel
+  rw [closed_primefield_ComputeTables, closed_extfield_newLogTable, hname]
+  have hm : "InputTooLarge" ∈ ["InputTooLarge"] ∧ "InputTooLarge" ∈
+      ["InputValue", "InputIncompatible", "InputTooLarge", "ArithmeticIncompat", "Overflow"] := by
+    simp
+  unfold stepT at h
+  cases desc with
+  | prime p =>
+    simp only [Option.some.injEq] at h
+    subst h
+    simp only
+    repeat' split
+    all_goals first | exact .inl rfl | exact .inr ⟨rfl, hm⟩
+  | bin n m' => simp only [Option.some.injEq] at h; subst h; exact .inl rfl
+  | ext p n g =>
+    simp only at h
+    split at h
+    · simp only [Option.some.injEq] at h; subst h; exact .inl rfl
+    · split at h
+      · simp only [Option.some.injEq] at h; subst h; exact .inr ⟨rfl, hm⟩
+      · simp only [Option.some.injEq] at h; subst h; exact .inl rfl
+
+/-- GF(3^8) with a limit of 0 KiB -/
+theorem logTable_complete : kindsOf Gen.errDirect "extfield.newLogTable" = ["InputTooLarge"] ∧
+    (stepT (.ext 3 8 []) ({} : St Nat) (.tables 0 false true (some 0))).map (·.2) =
+      some ("err " ++ Kind.inputTooLarge.name) :=
+  ⟨direct_extfield_newLogTable, by decide +kernel⟩
+
+/-! ### Inv of zero -/
+
+theorem direct_Inv :
+    kindsOf Gen.errDirect "primefield.Element.Inv" = ["InputValue"] ∧
+    kindsOf Gen.errDirect "binfield.Element.Inv" = ["InputValue"] ∧
+    kindsOf Gen.errDirect "extfield.Element.Inv" = ["InputValue"] := by
+  refine ⟨by decide +kernel, by decide +kernel, by decide +kernel⟩
+
+/-- the model's `inv` returns `none` (the element carrying the InputValue error) on zero -/
+theorem inv_complete : Prime.inv 7 0 = none ∧ Bin.inv 3 11 0 = none ∧ Ext.inv 3 [2, 2, 1] [0] = none ∧
+    LogT.invWith (extOps 3 2 [2, 2, 1]) (Ext.logTable 3 2 [2, 2, 1]) [0] = none := by
+  refine ⟨by decide +kernel, by decide +kernel, by decide +kernel, by decide +kernel⟩
+
+/-! ### the variable-name setters -/
+
+theorem closed_SetVarName :
+    kindsOf Gen.errClosed "univariate.QuotientRing.SetVarName" = ["InputValue"] ∧
+    kindsOf Gen.errClosed "bivariate.QuotientRing.SetVarNames" = ["InputValue"] ∧
+    kindsOf Gen.errClosed "binfield.Field.SetVarName" = ["InputValue"] := by
+  refine ⟨by decide +kernel, by decide +kernel, by decide +kernel⟩
+theorem direct_SetVarName :
+    kindsOf Gen.errDirect "univariate.QuotientRing.SetVarName" = ["InputValue"] ∧
+    kindsOf Gen.errDirect "bivariate.QuotientRing.SetVarNames" = ["InputValue"] ∧
+    kindsOf Gen.errDirect "binfield.Field.SetVarName" = ["InputValue"] := by
+  refine ⟨by decide +kernel, by decide +kernel, by decide +kernel⟩
+
+theorem setVarName_sound (old new : String) (k : Kind) (h : (Names.setVarName old new).2 = .error k) :
+    k.name ∈ kindsOf Gen.errClosed "univariate.QuotientRing.SetVarName" := by
+  rw [closed_SetVarName.1]
+  unfold Names.setVarName at h
+  simp only at h
+  split at h <;> cases h; kind_mem
+
+theorem binSetVarName_sound (old new : String) (k : Kind) (h : (Names.binSetVarName old new).2 = .error k) :
+    k.name ∈ kindsOf Gen.errClosed "binfield.Field.SetVarName" := by
+  rw [closed_SetVarName.2.2]
+  unfold Names.binSetVarName at h
+  simp only at h
+  repeat' split at h
+  all_goals first | (cases h; kind_mem) | cases h
+
+theorem setVarNames_sound (old new : String × String) (k : Kind)
+    (h : (Names.setVarNames old new).2 = .error k) :
+    k.name ∈ kindsOf Gen.errClosed "bivariate.QuotientRing.SetVarNames" := by
+  rw [closed_SetVarName.2.1]
+  unfold Names.setVarNames at h
+  simp only at h
+  repeat' split at h
+  all_goals first | (cases h; kind_mem) | cases h
+
+theorem setVarName_complete :
+    (Names.setVarName "X" "  ").2 = .error .inputValue ∧
+    (Names.binSetVarName "a" " 1 ").2 = .error .inputValue ∧
+    (Names.setVarNames ("X", "Y") ("x", " X")).2 = .error .inputValue := by
+  refine ⟨by decide +kernel, by decide +kernel, by decide +kernel⟩
+
 end Algobra.ErrTies
